@@ -287,6 +287,12 @@ def make(mode, workers=2, K=2, faults=False, spurious=1, select=("C11",), known=
             MPS.Process, MPS.Queue = saved
 
     def on_abort(E, kind, exc):
+        if kind == "budget":
+            # the reducer polls an empty queue for ever (get(timeout) raising Empty again and again): it does not return
+            c = getattr(E, "ctx", {})
+            E.acc.count("polls-forever")
+            E.acc.violation(dict(prop="C18" if faults else "C11", kind="blocks-forever", site="MultiprocessingSolver." + ("solve" if mode == "solve" else "optimize"), cls=None, harness="reducer", mode=mode, workers=workers, dead_at=c.get("dead_at"), nsol=c.get("nsol"), detail="polls the queue without end: " + str(exc)))
+            return
         if kind == "hang":
             c = getattr(E, "ctx", {})
             E.acc.count("hang")
